@@ -28,6 +28,7 @@ class Env:
         self.funopts = {}               # py name -> (dict text, key text, fun type, lambda node)
         self.tables = {}                # py name -> (table name, key text)
         self.structs = {}               # py name of a struct parameter -> struct type name
+        self.known = {}                 # py name -> 'some' | 'none': what an enclosing None test established
         self.used_comps = set()
         self.counter = [0]
 
@@ -37,6 +38,7 @@ class Env:
         e.funopts = dict(self.funopts)
         e.tables = dict(self.tables)
         e.structs = self.structs
+        e.known = dict(self.known)
         e.used_comps = self.used_comps
         e.counter = self.counter
         return e
@@ -151,6 +153,10 @@ def expr(env, node, expect=None):
             if len(f.params) == 1:
                 return f.coq, ('fun', f.params[0][1], f.ret)
         raise Unsupported(node, 'name %s is not a local, a parameter or covered by the signature file' % node.id)
+    if isinstance(node, ast.List) and not node.elts:
+        if expect and expect[0] == 'list':
+            return '[]', expect
+        raise Unsupported(node, 'empty list literal whose type is not declared in the signature file')
     if isinstance(node, ast.Tuple):
         parts = [expr(env, e) for e in node.elts]
         return '(%s)' % ', '.join(p[0] for p in parts), ('tuple',) + tuple(p[1] for p in parts)
@@ -265,6 +271,9 @@ def compare(env, node):
             cq = env.vars[nt[0]][0]
             return 'match %s with Some _ => %s | None => %s end' % (cq, 'true' if nt[1] else 'false',
                                                                      'false' if nt[1] else 'true'), ('bool',)
+        if nt and env.vars[nt[0]][1][0] in env.T.table and 'is_none' in env.T.table[env.vars[nt[0]][1][0]]:
+            c = env.T.table[env.vars[nt[0]][1][0]]['is_none'].format(par(env.vars[nt[0]][0]))
+            return (('negb (%s)' % c) if nt[1] else c), ('bool',)
         raise Unsupported(node, '`is` other than a None test on an optional local')
     a, ta = expr(env, l)
     b, tb = expr(env, r, ta)
@@ -454,7 +463,15 @@ def call(env, node):
             if t == ('list', ('str',)):
                 return 'ssorted %s' % par(a), t
             raise Unsupported(node, 'sorted() of a %s' % (t,))
-        if fn.id == 'list' and len(node.args) == 1:
+        if fn.id == 'all' and len(node.args) == 1 and isinstance(node.args[0], ast.GeneratorExp):
+            g = node.args[0]
+            if len(g.generators) != 1 or g.generators[0].ifs or g.generators[0].is_async:
+                raise Unsupported(node, 'all() over more than one generator / with a filter')
+            it, et = iterable(env, g.generators[0].iter)
+            inner = env.fork()
+            pat = bind_target(inner, g.generators[0].target, et)
+            return 'forallb (fun %s => %s) %s' % (pat, truth(inner, g.elt), par(it)), ('bool',)
+        if fn.id in ('list', 'tuple') and len(node.args) == 1:
             a, t = expr(env, node.args[0])
             if t[0] == 'list':
                 return a, t
